@@ -12,7 +12,8 @@ import math
 import subprocess
 from vlib.common import *
 
-IMPORTS = "From SpdVerif Require Import Base.Rx Gen.Efficiencies Proofs.C08_efficiency Proofs.C08_tac.\n"
+IMPORTS = ("From Coquelicot Require Import Coquelicot.\n"
+           "From SpdVerif Require Import Base.Rx Gen.Efficiencies Spec.Overlap Proofs.C08_efficiency Proofs.C08_overlap Proofs.C08_tac.\n")
 REL_SLACK = 1e-6     # relative slack of "does not exceed" (the property presupposes converged integration)
 LIMIT_TOL = 1e-4
 
@@ -308,7 +309,22 @@ def correspondence(ctx, obs):
         cid = f"f{i}"
         goals.append((cid, " /\\ ".join(parts), "case_eff"))
         meta[cid] = o
+    # the oracle's walk-off factor F(x) against the Coq definition (Spec/Overlap.v), by CoqInterval's verified quadrature
+    fmeta = {}
+    for i, o in enumerate(x for x in obs if x["kind"] == "lim"):
+        Wp, Ws, Wi, L, rho = (fh(o[k]) for k in ("wp", "ws", "wi", "len", "rho"))
+        _, x = limit_ratio(Wp, Ws, Wi, L, math.tan(rho))
+        if not (1e-3 < x < 5):
+            continue
+        X = Fraction(x)
+        cid = f"F{i}"
+        goals.append((cid, f"Rabs (F_walkoff {coq_q(X)} - {coq_q(Fraction(F_walkoff(x)))}) <= 1e-9", "case_F"))
+        fmeta[cid] = x
     res = run_interval_cases(ctx, "C08", IMPORTS, goals)
+    for cid, ok in res.items():
+        if not ok and cid in fmeta:
+            ctx.violation("S4", f"oracle value of F({fmeta[cid]!r}) disagrees with the Coq definition of the walk-off factor", {"kind": "model_F"},
+                          {"x": fmeta[cid], "oracle_F": F_walkoff(fmeta[cid])}, found_input=False)
     for cid, ok in res.items():
         if ok or cid not in meta:
             continue
